@@ -11,6 +11,12 @@
 //!       type_comment / type_ignores erased; identifiers hex; per-parameter defaults) or `parse-error`.
 //!       Error kinds and offsets are NOT observed.
 //!
+//!   rt <mode> <hex src> <attachment> <hex rendered text> [<attachment of the rendered text>]
+//!       the printer `PV.Prog.render` against the real parser (stream `render-roundtrip`): the rendered text (produced
+//!       by the Lean driver from the tree of `src`) is parsed with the real parser; answer
+//!       `eq=<1 iff its tree equals the tree of src> text=1 toks=1 infrag=1 tree=<canonical tree of the rendered text>`
+//!       (`text` / `toks` / `infrag` are the driver's own checks; the constant `1` here makes a failed one a difference).
+//!
 //! mode: m = Module, i = Interactive, e = Expression.
 //!
 //! Token form (items separated by `,`):
@@ -858,11 +864,24 @@ fn prog(mode: Mode, src: &str) -> String {
     }
 }
 
+fn rt(mode: Mode, src: &str, rendered: &str) -> String {
+    let orig = prog(mode, src);
+    if orig == "parse-error" || orig == "(panic)" {
+        return "orig-parse-error".to_string();
+    }
+    let again = prog(mode, rendered);
+    format!("eq={} text=1 toks=1 infrag=1 tree={}", if again == orig { 1 } else { 0 }, again)
+}
+
 fn handle(ws: &[&str]) -> String {
     let bad = || "bad-request".to_string();
     match ws {
         ["toks", m, s] => match (mode_of(m), unhex_str(s)) {
             (Some(m), Some(s)) => guard(|| toks(m, &s)).unwrap_or_else(|| "(panic)".to_string()),
+            _ => bad(),
+        },
+        ["rt", m, s, _att, r, ..] => match (mode_of(m), unhex_str(s), unhex_str(r)) {
+            (Some(m), Some(s), Some(r)) => rt(m, &s, &r),
             _ => bad(),
         },
         ["prog", m, s, ..] => match (mode_of(m), unhex_str(s)) {
